@@ -249,4 +249,19 @@ fn read_and_validate_local_modular_header(
 #[cfg(jxl_oxide_verif)]
 pub mod verif {
     pub use crate::transform::verif::*;
+
+    /// The scalar sample operations of a sample type, by value (arguments are converted with
+    /// `from_i32`): `unpack a`, `add a b`, `muladd a mul add`, `grad n w nw`, `from a`.
+    pub fn sample_op<S: crate::Sample>(op: &str, a: i64, b: i64, c: i64) -> Option<i64> {
+        use crate::sample::Sealed;
+        let s = |v: i64| S::from_i32(v as i32);
+        Some(match op {
+            "unpack" => S::unpack_signed_u32(a as u32).to_i64(),
+            "add" => Sealed::add(s(a), s(b)).to_i64(),
+            "muladd" => s(a).wrapping_muladd_i32(b as i32, c as i32).to_i64(),
+            "grad" => S::grad_clamped(s(a), s(b), s(c)).to_i64(),
+            "from" => s(a).to_i64(),
+            _ => return None,
+        })
+    }
 }
